@@ -412,9 +412,12 @@ Record GT (E : st) (U : list trigger) (fm : option nat) (s sg : st) (h : list tr
   gt_ndU : NoDup U;
   gt_ndh : NoDup h;
   gt_hU : incl h U;
-  gt_w : forall t, In t U -> is_write (tact t) = true /\ 1 <= tbytes t;
-  gt_just : Just E U h;
+  gt_w : forall t, In t U -> tact_ok (tact t) = true /\ 1 <= tbytes t;
+  gt_ts : TS U;
+  gt_so : noterm U \/ (sortedU U /\ ordU U h);
+  gt_just : exists hb, h = concat hb /\ (forall b, In b hb -> b <> []) /\ JustB E U hb;
   gt_coff : forall t, In t (trigs s) -> coff (cx s (tctx t)) < tbytes t;
+  gt_fired : forall t, In t h -> tbytes t <= coff (cx s (tctx t));
   gt_bkE : bk E = BSelect
 }.
 Definition GX (E : st) (U : list trigger) (s : st) : Prop := exists sg h, GT E U None s sg h.
@@ -436,6 +439,33 @@ Proof.
   - rewrite B', P. intros Bp. specialize (gt_cap0 Bp). lia.
 Qed.
 
+Lemma GT_SOK : forall E U fm s sg h, GT E U fm s sg h -> SOK U.
+Proof. intros E U fm s sg h G. destruct (gt_so _ _ _ _ _ _ G) as [N|[S _]]; [left|right]; auto. Qed.
+
+Lemma GT_tacts : forall E U fm s sg h, GT E U fm s sg h -> all_tacts U.
+Proof. intros E U fm s sg h G t Ht. apply (gt_w _ _ _ _ _ _ G). auto. Qed.
+
+(* the fired set is closed under "earlier trigger of the same context" *)
+Lemma GT_pc_sorted : forall E U fm s sg h, GT E U fm s sg h -> sortedU U -> pc (memt h) U.
+Proof.
+  intros E U fm s sg h G S a t B C Pt. apply memt_In in Pt.
+  destruct (memt h a) eqn:M; auto. exfalso.
+  destruct (before_In _ _ _ B) as [Ia It].
+  assert (In a (trigs s)) as Ha.
+  { rewrite (gt_trigs _ _ _ _ _ _ G). apply filter_In. split; auto. rewrite M. auto. }
+  pose proof (gt_coff _ _ _ _ _ _ G a Ha). pose proof (gt_fired _ _ _ _ _ _ G t Pt).
+  pose proof (S a t B C). rewrite C in *. lia.
+Qed.
+
+Lemma GT_pc : forall E U fm s sg h, GT E U fm s sg h -> PCok (memt h) U.
+Proof.
+  intros E U fm s sg h G. destruct (gt_so _ _ _ _ _ _ G) as [N|[S _]]; [left; auto|right].
+  eapply GT_pc_sorted; eauto.
+Qed.
+
+Lemma filter_all : forall {A} (f : A -> bool) l, (forall t, In t l -> f t = true) -> filter f l = l.
+Proof. induction l as [|a l IH]; intros H; simpl; auto. rewrite (H a (or_introl eq_refl)), IH; auto. intros; apply H; right; auto. Qed.
+
 Lemma GX_view : forall E U s s', GX E U s -> Inv s' ->
   cx s' = cx s -> clist s' = clist s -> trigs s' = trigs s -> phases s' = phases s ->
   bk s' = bk s -> pcap s' = pcap s -> length (parr s') <= length (parr s) -> GX E U s'.
@@ -451,11 +481,16 @@ Qed.
 
 (* facts about the ghost *)
 Lemma GT_ghost_cx : forall E U fm s sg h, GT E U fm s sg h -> forall y,
-  cx sg y = addq (cx E y) (if can_write (cx E y) then ws U (memt h) y else 0) /\ bk sg = BSelect.
+  cx sg y = apply_y (yacts (filter (memt h) U) y) (cx E y) /\ bk sg = BSelect /\
+  cq (cx sg y) = tot E U (memt h) y /\ cregok (cx sg y) = cregok (cx E y).
 Proof.
-  intros E U fm s sg h [] y. subst sg. split.
-  - apply ghost_hist; auto. intros t Ht. apply gt_w0; auto.
-  - rewrite bk_do_acts. auto.
+  intros E U fm s sg h G y.
+  assert (A : cx sg y = apply_y (yacts (filter (memt h) U) y) (cx E y)).
+  { rewrite (gt_ghost _ _ _ _ _ _ G). apply ghost_eq; try apply G. apply (GT_tacts _ _ _ _ _ _ G).
+    destruct (gt_so _ _ _ _ _ _ G) as [N|[_ O]]; auto. }
+  split; auto. split.
+  - rewrite (gt_ghost _ _ _ _ _ _ G), bk_do_acts. apply G.
+  - rewrite A. split; [reflexivity|]. apply (sf_reg _ _ (apply_samefix _ _)).
 Qed.
 
 (* at quiescence the fired set is closed, hence the least fixpoint: the ghost is the canonical one *)
@@ -470,10 +505,9 @@ Proof.
   specialize (CO Hts).
   unfold en in EN. apply Bool.andb_true_iff in EN. destruct EN as [RG LE]. apply Nat.leb_le in LE.
   set (x := tctx t) in *.
-  destruct (GT_ghost_cx _ _ _ _ _ _ G x) as [CXg _].
+  destruct (GT_ghost_cx _ _ _ _ _ _ G x) as (_ & _ & TQ & RGg).
   pose proof (g_pc _ _ (gt_gc _ _ _ _ _ _ G) x) as P. destruct P.
-  assert (cq (cx sg x) = tot E U (memt h) x) as TQ by (rewrite CXg; unfold tot, addq; simpl; auto).
-  assert (cregok (cx s x) = true) as RS by (rewrite p_reg0, CXg; unfold addq; simpl; auto).
+  assert (cregok (cx s x) = true) as RS by (rewrite p_reg0, RGg; auto).
   assert (cq (cx s x) = 0) as Q0.
   { destruct (proj1 (g_reg _ _ (gt_gc _ _ _ _ _ _ G) x) RS) as [Hin|Hc].
     - apply (events_zero _ _ (g_pc _ _ (gt_gc _ _ _ _ _ _ G) x) (Q x Hin)).
@@ -485,12 +519,15 @@ Lemma quiet_cxeq : forall E U s sg h, GT E U None s sg h -> Quiet s ->
   (forall t, In t U -> memt h t = LP E U t) /\ forall y, cx (settle E U) y = cx sg y.
 Proof.
   intros E U s sg h G Q.
+  destruct (gt_just _ _ _ _ _ _ G) as (hb & Eh & NE & J).
   assert (L : forall t, In t U -> memt h t = LP E U t).
-  { apply closed_is_lfp; try apply G. apply (quiet_closed E U s sg h G Q). }
+  { rewrite Eh. apply closed_is_lfp; auto; try apply G; try (rewrite <- Eh; apply G).
+    - apply (GT_SOK _ _ _ _ _ _ G).
+    - rewrite <- Eh. apply (quiet_closed E U s sg h G Q). }
   split; auto. intros y.
-  destruct (GT_ghost_cx _ _ _ _ _ _ G y) as [A _].
-  destruct (ghost_settle E U y) as [B _]; [intros t Ht; apply (gt_w _ _ _ _ _ _ G); auto|].
-  rewrite A, B. f_equal. destruct (can_write (cx E y)); auto. apply ws_ext. intros t Ht. symmetry. auto.
+  destruct (GT_ghost_cx _ _ _ _ _ _ G y) as (A & _).
+  destruct (ghost_settle E U y) as [B _]; [apply (GT_tacts _ _ _ _ _ _ G)|].
+  rewrite A, B. f_equal. f_equal. apply filter_ext_in. intros t Ht. symmetry. auto.
 Qed.
 
 Lemma filter_true : forall {A} (l : list A), filter (fun _ => true) l = l.
@@ -532,13 +569,14 @@ Proof.
       pose proof (QI IDs) as Q.
       assert (Q2 : Quiet s2) by (eapply Quiet_view; [| |apply Q]; auto).
       destruct (quiet_cxeq E U s2 sg h G2 Q2) as [LL CXE].
-      destruct G2 as [I2' GC2 F2 PH CAP FIN GH TR NDU NDH HU W J CO BE].
+      pose proof (GT_tacts _ _ _ _ _ _ G2) as WT.
+      destruct G2 as [I2' GC2 F2 PH CAP FIN GH TR NDU NDH HU W TSU SO J CO FI BE].
       simpl in PH, CAP, FIN. rewrite P in PH, CAP, FIN. simpl in PH, CAP, FIN.
       rewrite forallb_app in PH. apply Bool.andb_true_iff in PH. destruct PH as [PH1 PH2].
       rewrite count_adds_app in CAP.
       set (C := settle E U) in *.
       assert (BC : bk C = BSelect).
-      { destruct (ghost_settle E U 0) as [_ B]; [intros t Ht; apply W; auto|]. unfold C. congruence. }
+      { destruct (ghost_settle E U 0) as [_ B]; [apply WT|]. unfold C. congruence. }
       assert (GCC : GC s2 C) by (eapply GC_cxeq; eauto).
       set (s3 := set_phases rest s2) in *.
       assert (I3 : Inv s3) by (eapply Inv_view; [apply sv_set_phases|auto]).
@@ -561,9 +599,14 @@ Proof.
         - (* ndh *) constructor.
         - (* hU *) intros t [].
         - (* w *) intros t Ht. unfold unf in Ht. apply filter_In in Ht. apply W. tauto.
-        - (* just *) intros pre t post Eq. destruct pre; discriminate.
+        - (* ts *) unfold unf. apply TS_filter. auto.
+        - (* so *) destruct SO as [N|[S _]].
+          + left. intros t y Ht. unfold unf in Ht. apply filter_In in Ht. apply N. tauto.
+          + right. split; [unfold unf; apply sortedU_filter; auto|]. intros c. simpl. rewrite filter_memt_nil. auto.
+        - (* just *) exists []. split; [auto|]. split; [intros b []|]. intros pre b post Eq. destruct pre; discriminate.
         - (* coff *) rewrite D1. simpl. intros t Ht. destruct (A3 (tctx t)) as (_ & _ & _ & CF). rewrite CF. simpl.
           apply CO. simpl. auto.
+        - (* fired *) intros t [].
         - (* bkE *) rewrite bk_do_acts. auto. }
       split; [rewrite A8; simpl; auto|]. split; [rewrite A5; simpl; auto|].
       split; [rewrite A6; simpl; auto|]. split; [rewrite A7; simpl; auto|].
@@ -580,26 +623,24 @@ Qed.
 Record frame (s s' : st) : Prop := mkFr {
   fr_clist : clist s' = clist s; fr_phases : phases s' = phases s; fr_toexit : toexit s' = toexit s;
   fr_idle : idle s' = idle s; fr_bk : bk s' = bk s; fr_pcap : pcap s' = pcap s; fr_ecap : ecap s' = ecap s;
-  fr_parr : parr s' = parr s; fr_sset : sset s' = sset s; fr_ereg : ereg s' = ereg s;
-  fr_wk : wk s' = wk s
+  fr_parr : parr s' = parr s; fr_sset : sset s' = sset s; fr_ereg : ereg s' = ereg s
 }.
 Lemma frame_refl : forall s, frame s s. Proof. intros; constructor; auto. Qed.
 Lemma frame_trans : forall a b c, frame a b -> frame b c -> frame a c.
 Proof. intros a b c [] []. constructor; congruence. Qed.
 
-Lemma frame_do_write : forall z k s, frame s (do_act (AWrite z k) s).
+Lemma frame_do_tact : forall a s, tact_ok a = true -> frame s (do_act a s).
 Proof.
-  intros. unfold do_act. destruct (can_write (cx s z)); [destruct (Nat.eqb k 0)|]; constructor; simpl;
-    rewrite ?clist_edge, ?phases_edge, ?toexit_edge, ?idle_edge, ?bk_edge, ?pcap_edge, ?parr_edge, ?sset_edge, ?ereg_edge, ?wk_edge; auto;
+  intros a s H. destruct a; try discriminate; unfold do_act;
+    repeat match goal with |- context [if ?c then _ else _] => destruct c end; constructor; simpl;
+    rewrite ?clist_edge, ?phases_edge, ?toexit_edge, ?idle_edge, ?bk_edge, ?pcap_edge, ?parr_edge, ?sset_edge, ?ereg_edge; auto;
     unfold edge; destruct (_ && _); auto.
 Qed.
 
-Lemma frame_do_writes : forall l s, all_writes l -> frame s (do_acts (map tact l) s).
+Lemma frame_do_tacts : forall l s, all_tacts l -> frame s (do_acts (map tact l) s).
 Proof.
   induction l as [|t l IH]; intros s W; simpl; [apply frame_refl|].
-  assert (Wt : is_write (tact t) = true) by (apply W; left; auto).
-  destruct (tact t) as [z k| | | | | |]; try discriminate.
-  eapply frame_trans; [apply frame_do_write|apply IH]. intros u Hu. apply W. right; auto.
+  eapply frame_trans; [apply frame_do_tact; apply W; left; auto|apply IH]. intros u Hu. apply W. right; auto.
 Qed.
 
 Lemma NoDup_app_intro : forall {A} (a b : list A), NoDup a -> NoDup b -> (forall x, In x a -> ~ In x b) -> NoDup (a ++ b).
@@ -610,19 +651,22 @@ Proof.
   - apply IH; auto. intros x Hx. apply D. right; auto.
 Qed.
 
-Lemma memt_app : forall a b t, memt (a ++ b) t = memt a t || memt b t.
-Proof. intros. unfold memt. apply existsb_app. Qed.
+Lemma filter_filter : forall {A} (f g : A -> bool) l, filter f (filter g l) = filter (fun t => g t && f t) l.
+Proof. induction l as [|a l IHl]; simpl; auto. destruct (g a); simpl; [destruct (f a); rewrite IHl; auto|auto]. Qed.
 
 (* the read callback of a registered context: drain, fire the triggers whose threshold is reached *)
 Lemma gt_cb_read : forall E U s sg h x, GT E U None s sg h -> In x (clist s) ->
   exists sg1 h1, GT E U (Some x) (cb_read x s) sg1 h1 /\ frame s (cb_read x s) /\ ext s (cb_read x s) /\
     cflag (cx (cb_read x s) x) = ceof (cx s x) /\
     (cflag (cx (cb_read x s) x) = true -> cq (cx (cb_read x s) x) = 0) /\
-    ceof (cx (cb_read x s) x) = ceof (cx s x) /\
+    (ceof (cx s x) = true -> ceof (cx (cb_read x s) x) = true) /\
     (cflag (cx (cb_read x s) x) = false -> events_c (cx (rd_mid x s) x) = 0).
 Proof.
   intros E U s sg h x G Hin.
-  destruct G as [I GCs F PH CAP FIN GH TR NDU NDH HU W J CO BE].
+  pose proof (GT_pc _ _ _ _ _ _ G) as PCh.
+  assert (PCS : sortedU U -> pc (memt h) U) by (apply (GT_pc_sorted _ _ _ _ _ _ G)).
+  pose proof (GT_ghost_cx _ _ _ _ _ _ G x) as (_ & _ & TQ & RGg).
+  destruct G as [I GCs F PH CAP FIN GH TR NDU NDH HU W TSU SO J CO FI BE].
   destruct (gc_rd_mid x s sg GCs F I Hin) as (GM & FM & FE & DR & CXM & OTH).
   pose proof (Inv_rd_mid x s I Hin) as IM.
   destruct (Inv_cb_read x s I Hin) as (I1 & E1 & _).
@@ -634,23 +678,40 @@ Proof.
   assert (FU : forall t, In t fire -> In t U /\ memt h t = false).
   { intros t Ht. destruct (FS t Ht) as [A _]. rewrite TR in A. apply filter_In in A. destruct A as [A B].
     split; auto. apply Bool.negb_true_iff in B. auto. }
-  assert (WF : all_writes fire) by (intros t Ht; apply W; apply FU; auto).
+  assert (FX : forall t, In t fire -> tctx t = x /\ tbytes t <= off).
+  { intros t Ht. destruct (FS t Ht) as [_ HT]. unfold trig_hit in HT. apply Bool.andb_true_iff in HT. destruct HT as [TX TB].
+    apply Nat.eqb_eq in TX. apply Nat.leb_le in TB. auto. }
+  assert (WF : all_tacts fire) by (intros t Ht; apply W; apply FU; auto).
   assert (OKF : forallb phase_act_ok (map tact fire) = true).
   { apply forallb_forall. intros a Ha. apply in_map_iff in Ha. destruct Ha as (t & <- & Ht).
-    pose proof (WF t Ht). destruct (tact t); try discriminate; auto. }
+    apply tact_ok_phase. apply WF. auto. }
   assert (NA : count_adds (map tact fire) = 0).
   { clear - WF. induction fire as [|t l IH]; auto. rewrite map_cons, count_adds_cons.
-    assert (is_write (tact t) = true) by (apply WF; left; auto).
+    assert (tact_ok (tact t) = true) by (apply WF; left; auto).
     rewrite IH by (intros u Hu; apply WF; right; auto). destruct (tact t); try discriminate; auto. }
   destruct (lock_do_acts (map tact fire) mid sg (count_adds (concat (phases mid))) OKF IM GM) as (A1 & A2 & A3 & A4 & A5 & A6 & A7 & A8 & A9).
   { rewrite NA. unfold mid, rd_mid. simpl. intros B. specialize (CAP B). lia. }
-  pose proof (frame_do_writes fire mid WF) as FRW.
+  pose proof (frame_do_tacts fire mid WF) as FRW.
   assert (FRM : frame s mid) by (unfold mid, rd_mid; constructor; simpl; auto).
   pose proof (frame_trans _ _ _ FRM FRW) as FR.
   destruct (do_acts_facts (map tact fire) mid) as (D1 & D2 & _ & _).
-  assert (CXW : forall z, cx (do_acts (map tact fire) mid) z =
-                addq (cx mid z) (if can_write (cx mid z) then wsl fire z else 0)).
-  { intros z. apply (ghost_w fire mid z WF). }
+  assert (CXW : forall z, cx (do_acts (map tact fire) mid) z = apply_y (yacts fire z) (cx mid z)).
+  { intros z. apply (ghost_y fire mid z WF). }
+  assert (SFz : forall z, samefix (cx mid z) (cx (do_acts (map tact fire) mid) z)).
+  { intros z. rewrite CXW. apply apply_samefix. }
+  assert (RS : cregok (cx s x) = true) by (apply (g_reg _ _ GCs); auto).
+  pose proof (g_pc _ _ GCs x) as P. destruct P.
+  assert (OFFQ : off = tot E U (memt h) x) by (unfold off; lia).
+  assert (RE : cregok (cx E x) = true) by (rewrite <- RGg, <- p_reg0; auto).
+  assert (TRK : trigs (do_acts (map tact fire) mid) = filter (fun t => negb (memt (h ++ fire) t)) U).
+  { rewrite D1. unfold mid, rd_mid. simpl. rewrite TR. rewrite filter_filter.
+    apply filter_ext_in. intros t Ht. rewrite memt_app.
+    destruct (memt h t) eqn:M; simpl; auto.
+    fold off. destruct (trig_hit x off t) eqn:HT; simpl.
+    + assert (In t fire) as Hf.
+      { unfold fire, rd_fire. fold off. apply filter_In. split; auto. rewrite TR. apply filter_In. split; auto. rewrite M. auto. }
+      apply memt_In in Hf. rewrite Hf. auto.
+    + destruct (memt fire t) eqn:MF; auto. apply memt_In in MF. destruct (FS t MF) as [_ K]. congruence. }
   exists (do_acts (map tact fire) sg), (h ++ fire).
   split.
   { apply mkGT.
@@ -661,57 +722,75 @@ Proof.
   - (* cap *) rewrite (fr_bk _ _ FR), (fr_parr _ _ FR), (fr_phases _ _ FR), (fr_pcap _ _ FR). auto.
   - (* fin *) rewrite (fr_phases _ _ FR). auto.
   - (* ghost *) rewrite GH, map_app, do_acts_app. auto.
-  - (* trigs *) rewrite D1. unfold mid, rd_mid. simpl. rewrite TR.
-    assert (forall (f g : trigger -> bool) l, filter f (filter g l) = filter (fun t => g t && f t) l) as FF.
-    { induction l as [|a l IHl]; simpl; auto. destruct (g a); simpl; [destruct (f a); rewrite IHl; auto|auto]. }
-    rewrite FF. apply filter_ext_in. intros t Ht. rewrite memt_app.
-    destruct (memt h t) eqn:M; simpl; auto.
-    fold off. destruct (trig_hit x off t) eqn:HT; simpl.
-    + assert (In t fire) as Hf.
-      { unfold fire, rd_fire. fold off. apply filter_In. split; auto. rewrite TR. apply filter_In. split; auto. rewrite M. auto. }
-      apply memt_In in Hf. rewrite Hf. auto.
-    + destruct (memt fire t) eqn:MF; auto. apply memt_In in MF. destruct (FS t MF) as [_ K]. congruence.
+  - (* trigs *) auto.
   - (* ndU *) auto.
   - (* ndh *) apply NoDup_app_intro; auto.
     + unfold fire, rd_fire. apply NoDup_filter. rewrite TR. apply NoDup_filter. auto.
     + intros t Ht Hf. destruct (FU t Hf) as [_ K]. apply memt_In in Ht. congruence.
   - (* hU *) intros t Ht. apply in_app_or in Ht. destruct Ht as [Ht|Ht]; [apply HU; auto|apply FU; auto].
   - (* w *) auto.
-  - (* just *) apply Just_app; auto. intros pre t post Eq.
-    assert (In t fire) as Hf by (rewrite Eq; apply in_or_app; right; left; auto).
-    destruct (FS t Hf) as [_ HT]. unfold trig_hit in HT. apply Bool.andb_true_iff in HT. destruct HT as [TX TB].
-    apply Nat.eqb_eq in TX. apply Nat.leb_le in TB.
-    unfold en. rewrite TX.
-    assert (GT0 : GT E U None s sg h) by (apply mkGT; auto).
-    destruct (GT_ghost_cx _ _ _ _ _ _ GT0 x) as [CXg _].
-    pose proof (g_pc _ _ GCs x) as P. destruct P.
-    assert (cregok (cx s x) = true) as RS by (apply (g_reg _ _ GCs); auto).
-    assert (cregok (cx E x) = true) as -> by (rewrite p_reg0, CXg in RS; unfold addq in RS; simpl in RS; auto).
-    simpl. apply Nat.leb_le.
-    assert (cq (cx sg x) = tot E U (memt h) x) as TQ by (rewrite CXg; unfold tot, addq; simpl; auto).
-    assert (tot E U (memt h) x <= tot E U (memt (h ++ pre)) x).
-    { unfold tot. pose proof (ws_mono U (memt h) (memt (h ++ pre)) x) as M.
-      destruct (can_write (cx E x)); [|lia]. apply Nat.add_le_mono_l. apply M.
-      intros u _ Hu. rewrite memt_app, Hu. auto. }
-    lia.
-  - (* coff *) intros t Ht. rewrite D1 in Ht. unfold mid, rd_mid in Ht. simpl in Ht. apply filter_In in Ht. destruct Ht as [Ht NH].
-    rewrite CXW. unfold addq. simpl.
+  - (* ts *) auto.
+  - (* so *) destruct SO as [N|[S O]]; [left; auto|right; split; auto].
+    (* the history still lists every context's triggers in the order of U *)
+    intros c. rewrite filter_app, (O c).
+    destruct (Nat.eq_dec c x) as [->|NC].
+    + assert (filter (ctxf x) fire = fire) as ->.
+      { apply filter_all. intros t Ht. unfold ctxf. rewrite (proj1 (FX t Ht)). apply Nat.eqb_refl. }
+      set (Ux := filter (ctxf x) U).
+      assert (FF : fire = filter (fun t => negb (memt h t) && Nat.leb (tbytes t) off) Ux).
+      { unfold fire, rd_fire. fold off. rewrite TR, filter_filter. unfold Ux. rewrite filter_filter.
+        apply filter_ext. intros t. unfold trig_hit, ctxf. destruct (Nat.eqb (tctx t) x); simpl; auto.
+        rewrite Bool.andb_false_r. auto. }
+      assert (DC : dcl (memt h) Ux).
+      { intros a t B Pt. destruct (before_In _ _ _ B) as [Ia It].
+        apply (PCS S a t); auto. eapply before_filter; eauto.
+        unfold Ux in Ia, It. apply filter_In in Ia. apply filter_In in It. unfold ctxf in *.
+        destruct Ia as [_ Ia], It as [_ It]. apply Nat.eqb_eq in Ia. apply Nat.eqb_eq in It. congruence. }
+      rewrite FF at 1. rewrite (filter_split_dcl (memt h) (fun t => Nat.leb (tbytes t) off) Ux DC).
+      apply filter_ext_in. intros t Ht. rewrite memt_app.
+      destruct (memt h t) eqn:M; simpl; auto.
+      destruct (Nat.leb (tbytes t) off) eqn:LB.
+      * symmetry. apply memt_In. rewrite FF. apply filter_In. split; auto. rewrite M, LB. auto.
+      * symmetry. apply memt_false. rewrite FF. intro K. apply filter_In in K. destruct K as [_ K]. rewrite M, LB in K. discriminate.
+    + assert (filter (ctxf c) fire = []) as ->.
+      { apply filter_none. intros t Ht. unfold ctxf. rewrite (proj1 (FX t Ht)). apply Nat.eqb_neq. auto. }
+      rewrite app_nil_r. apply filter_ext_in. intros t Ht. rewrite memt_app.
+      assert (memt fire t = false) as ->; [|rewrite Bool.orb_false_r; auto].
+      apply memt_false. intro K. apply filter_In in Ht. destruct Ht as [_ Ht]. unfold ctxf in Ht.
+      apply Nat.eqb_eq in Ht. rewrite (proj1 (FX t K)) in Ht. congruence.
+  - (* just *) destruct J as (hb & Eh & NE & JB).
+    destruct fire as [|f0 fr] eqn:FE0.
+    + exists hb. rewrite app_nil_r. auto.
+    + exists (hb ++ [f0 :: fr]). split; [rewrite concat_app; simpl; rewrite app_nil_r, Eh; auto|]. split.
+      * intros b Hb. apply in_app_or in Hb. destruct Hb as [Hb|[<-|[]]]; [apply NE; auto|discriminate].
+      * apply JustB_snoc; auto; rewrite <- Eh; auto.
+        intros t Ht. unfold en. rewrite (proj1 (FX t Ht)), RE. simpl. apply Nat.leb_le.
+        rewrite <- OFFQ. apply FX. auto.
+  - (* coff *) intros t Ht. rewrite TRK in Ht. apply filter_In in Ht. destruct Ht as [HtU NM].
+    rewrite memt_app in NM. apply Bool.negb_true_iff, Bool.orb_false_iff in NM. destruct NM as [NM1 NM2].
+    assert (In t (trigs s)) as Hts by (rewrite TR; apply filter_In; split; auto; rewrite NM1; auto).
+    rewrite (sf_off _ _ (SFz (tctx t))).
     destruct (Nat.eq_dec (tctx t) x) as [TX|TX].
-    + rewrite TX, Nat.eqb_refl. unfold rd_ctx. simpl.
-      apply Bool.negb_true_iff in NH. unfold trig_hit in NH. rewrite TX, Nat.eqb_refl in NH. simpl in NH.
-      apply Nat.leb_gt in NH. auto.
-    + apply Nat.eqb_neq in TX. rewrite TX. apply CO. auto.
+    + rewrite TX, CXM. unfold rd_ctx. simpl. fold off.
+      destruct (Nat.le_gt_cases (tbytes t) off) as [LE|GTb]; [|lia]. exfalso.
+      apply memt_false in NM2. apply NM2. unfold fire, rd_fire. fold off. apply filter_In. split; auto.
+      unfold trig_hit. rewrite TX, Nat.eqb_refl. simpl. apply Nat.leb_le. auto.
+    + rewrite OTH by auto. apply CO. auto.
+  - (* fired *) intros t Ht. rewrite (sf_off _ _ (SFz (tctx t))). apply in_app_or in Ht. destruct Ht as [Ht|Ht].
+    + pose proof (FI t Ht) as K. destruct (Nat.eq_dec (tctx t) x) as [TX|TX].
+      * rewrite TX in *. rewrite CXM. unfold rd_ctx. simpl. lia.
+      * rewrite OTH by auto. auto.
+    + destruct (FX t Ht) as [TX TB]. rewrite TX, CXM. unfold rd_ctx. simpl. auto.
   - (* bkE *) auto. }
   split; auto. split; auto.
-    assert (CFx : cflag (cx (do_acts (map tact fire) mid) x) = ceof (cx s x)).
-    { destruct (A3 x) as (CF & _). rewrite CF. auto. }
-    split; auto. split; [|split].
-    + intros K. rewrite CFx in K. rewrite CXW, CXM.
-      assert (can_write (rd_ctx (cx s x)) = false) as ->.
-      { unfold can_write, rd_ctx. simpl. rewrite K. simpl. rewrite Bool.andb_false_r. auto. }
-      unfold addq, rd_ctx. simpl. auto.
-    + rewrite CXW, CXM. unfold addq, rd_ctx. simpl. auto.
-    + rewrite CFx. intros K. apply DR. rewrite FE. auto.
+  assert (CFx : cflag (cx (do_acts (map tact fire) mid) x) = ceof (cx s x)).
+  { rewrite (sf_flag _ _ (SFz x)). auto. }
+  split; auto. split; [|split].
+  + intros K. rewrite CFx in K. rewrite CXW.
+    assert (ceof (cx mid x) = true) as CE by (rewrite CXM; unfold rd_ctx; simpl; auto).
+    destruct (apply_dead (yacts fire x) (cx mid x) CE) as [Q0 _]. rewrite Q0, CXM. unfold rd_ctx. simpl. auto.
+  + intros K. apply (sf_eof _ _ (SFz x)). rewrite CXM. unfold rd_ctx. simpl. auto.
+  + rewrite CFx. intros K. apply DR. rewrite FE. auto.
 Qed.
 
 Lemma visit_read : forall (rd : bool) E U s x, GX E U s -> In x (clist s) ->
@@ -719,7 +798,7 @@ Lemma visit_read : forall (rd : bool) E U s x, GX E U s -> In x (clist s) ->
   exists sg1 h1, GT E U (Some x) s1 sg1 h1 /\ frame s s1 /\ ext s s1 /\
     (rd = false -> s1 = s) /\
     (cflag (cx s1 x) = true -> cq (cx s1 x) = 0) /\
-    ceof (cx s1 x) = ceof (cx s x) /\
+    (ceof (cx s x) = true -> ceof (cx s1 x) = true) /\
     (rd = true -> cflag (cx s1 x) = ceof (cx s x)) /\
     (rd = true -> cflag (cx s1 x) = false -> events_c (cx (rd_mid x s) x) = 0).
 Proof.
@@ -740,19 +819,21 @@ Lemma visit_flag : forall (fl : bool) E U s sg h x, GT E U (Some x) s sg h ->
   GT E U (Some x) s2 sg h /\ frame s s2 /\ erdl s2 = erdl s /\ tr s2 = tr s /\
   (forall z, z <> x -> cx s2 z = cx s z) /\
   (cflag (cx s2 x) = false -> s2 = s) /\ cq (cx s2 x) = cq (cx s x) /\
-  (fl = true -> cflag (cx s2 x) = true) /\ (fl = false -> s2 = s).
+  (fl = true -> cflag (cx s2 x) = true) /\ (fl = false -> s2 = s) /\ wk s2 = wk s.
 Proof.
   intros fl E U s sg h x G H. destruct fl; cbv zeta.
-  - destruct G as [I GCs F PH CAP FIN GH TR NDU NDH HU W J CO BE].
+  - destruct G as [I GCs F PH CAP FIN GH TR NDU NDH HU W TSU SO J CO FI BE].
     destruct (gc_set_flag x s sg GCs F (H eq_refl)) as [A B].
     destruct (Inv_set_flag x s I) as [I2 _].
     unfold set_flag in *.
     split; [apply mkGT; auto|].
     + intros t Ht. simpl in *. destruct (Nat.eqb (tctx t) x) eqn:E0; [|apply CO; auto].
       apply Nat.eqb_eq in E0. simpl. rewrite <- E0. apply CO. auto.
+    + intros t Ht. simpl in *. destruct (Nat.eqb (tctx t) x) eqn:E0; [|apply FI; auto].
+      apply Nat.eqb_eq in E0. simpl. rewrite <- E0. apply FI. auto.
     + split; [constructor; simpl; auto|]. split; [auto|]. split; [auto|].
       split; [intros z Hz; simpl; apply Nat.eqb_neq in Hz; rewrite Hz; auto|].
-      simpl. rewrite Nat.eqb_refl. simpl. split; [intros; discriminate|]. split; auto. split; auto. intros; discriminate.
+      simpl. rewrite Nat.eqb_refl. simpl. split; [intros; discriminate|]. split; auto. split; auto. split; auto. intros; discriminate.
   - split; auto. split; [apply frame_refl|]. split; auto. split; auto. split; auto. split; auto. split; auto.
     split; [intros; discriminate|auto].
 Qed.
@@ -765,20 +846,22 @@ Lemma visit_close : forall E U s sg h x s', GT E U (Some x) s sg h -> cflag (cx 
   ((forall z, In z (clist s) -> z <> x -> events_c (cx s z) = 0) -> Quiet s').
 Proof.
   intros E U s sg h x s' G CF Hin CQ I' E1 E2 E3 E4 E5 E6 E7.
-  destruct G as [I GCs F PH CAP FIN GH TR NDU NDH HU W J CO BE].
+  destruct G as [I GCs F PH CAP FIN GH TR NDU NDH HU W TSU SO J CO FI BE].
   destruct (gc_close x s sg s' GCs F CF Hin CQ E1 E2 E3) as [A B].
   split.
   - apply mkGT; auto; rewrite ?E3, ?E4; auto.
     + rewrite E5, E6. intros Bp. specialize (CAP Bp). lia.
     + intros t Ht. rewrite E1. simpl. destruct (Nat.eqb (tctx t) x) eqn:E0; [|apply CO; auto].
       apply Nat.eqb_eq in E0. simpl. rewrite <- E0. apply CO. auto.
+    + intros t Ht. rewrite E1. simpl. destruct (Nat.eqb (tctx t) x) eqn:E0; [|apply FI; auto].
+      apply Nat.eqb_eq in E0. simpl. rewrite <- E0. apply FI. auto.
   - intros Q z Hz. rewrite E2 in Hz. apply rm_In in Hz. destruct Hz as [Hz Hne].
     rewrite E1. simpl. apply Nat.eqb_neq in Hne. rewrite Hne. apply Q; auto. apply Nat.eqb_neq; auto.
 Qed.
 
 Lemma GT_unflag : forall E U s sg h x, GT E U (Some x) s sg h -> cflag (cx s x) = false -> GT E U None s sg h.
 Proof.
-  intros E U s sg h x [I GCs F PH CAP FIN GH TR NDU NDH HU W J CO BE] CF.
+  intros E U s sg h x [I GCs F PH CAP FIN GH TR NDU NDH HU W TSU SO J CO FI BE] CF.
   apply mkGT; auto. simpl in F. eapply Flx_Fl; eauto.
 Qed.
 
@@ -854,20 +937,20 @@ Qed.
 Definition cov (i : nat) (s : st) : Prop :=
   forall k x, k < i -> nth_error (clist s) k = Some x -> In x (sset s).
 
-Lemma cb_read_w_frame : forall x s, all_writes (trigs s) ->
-  frame s (cb_read x s) /\ all_writes (trigs (cb_read x s)).
+Lemma cb_read_w_frame : forall x s, all_tacts (trigs s) ->
+  frame s (cb_read x s) /\ all_tacts (trigs (cb_read x s)).
 Proof.
   intros x s W. rewrite cb_read_split.
-  assert (WF : all_writes (rd_fire x s)).
+  assert (WF : all_tacts (rd_fire x s)).
   { intros t Ht. unfold rd_fire in Ht. apply filter_In in Ht. apply W. tauto. }
   split.
-  - eapply frame_trans; [|apply frame_do_writes; auto]. unfold rd_mid. constructor; simpl; auto.
+  - eapply frame_trans; [|apply frame_do_tacts; auto]. unfold rd_mid. constructor; simpl; auto.
   - destruct (do_acts_facts (map tact (rd_fire x s)) (rd_mid x s)) as (D1 & _). rewrite D1.
     unfold rd_mid. simpl. intros t Ht. apply filter_In in Ht. apply W. tauto.
 Qed.
 
 (* after a complete walk every context still in ctx_list is in the rebuilt allset *)
-Lemma sel_walk_cov : forall f i rep s, Inv s -> bk s = BSelect -> all_writes (trigs s) -> cov i s ->
+Lemma sel_walk_cov : forall f i rep s, Inv s -> bk s = BSelect -> all_tacts (trigs s) -> cov i s ->
   length (clist s) - i < f ->
   forall x, In x (clist (sel_walk f i rep s)) -> In x (sset (sel_walk f i rep s)).
 Proof.
@@ -876,7 +959,7 @@ Proof.
   - pose proof (nth_error_In _ _ N) as Hy.
     assert (Hi : i < length (clist s)) by (apply nth_error_Some; congruence).
     set (s1 := if negb (Nat.eqb (lookup y rep) 0) then cb_read y s else s).
-    assert (H1 : Inv s1 /\ clist s1 = clist s /\ sset s1 = sset s /\ all_writes (trigs s1) /\ bk s1 = BSelect).
+    assert (H1 : Inv s1 /\ clist s1 = clist s /\ sset s1 = sset s /\ all_tacts (trigs s1) /\ bk s1 = BSelect).
     { unfold s1. destruct (negb _); [|auto].
       destruct (Inv_cb_read y s I Hy) as (A & _). split; auto.
       destruct (cb_read_w_frame y s T) as [FR W']. destruct FR. repeat split; auto; congruence. }
@@ -926,7 +1009,7 @@ Proof.
   eapply Inv_view; [apply sv_inject|apply (GX_inv _ _ _ G)].
 Qed.
 
-Lemma GX_writes : forall E U s, GX E U s -> all_writes (trigs s).
+Lemma GX_writes : forall E U s, GX E U s -> all_tacts (trigs s).
 Proof.
   intros E U s (sg & h & G) t Ht. rewrite (gt_trigs _ _ _ _ _ _ G) in Ht. apply filter_In in Ht.
   apply (gt_w _ _ _ _ _ _ G). tauto.
@@ -1255,8 +1338,8 @@ Proof.
             s1 = (if has_in re then cb_read x s else s)) as (s1 & n1 & EQ1 & ES1).
   { destruct (has_in re); eexists; eexists; split; reflexivity. }
   rewrite EQ1 in *. rewrite <- ES1 in *. clear EQ1.
-  destruct (visit_flag (has_hup_err re) E U s1 sg1 h1 x G1) as (G2 & FR2 & RD2 & T2 & O2 & NF2 & CQ2 & FT2 & FF2).
-  { intros H. rewrite CE1. apply (HTx H). }
+  destruct (visit_flag (has_hup_err re) E U s1 sg1 h1 x G1) as (G2 & FR2 & RD2 & T2 & O2 & NF2 & CQ2 & FT2 & FF2 & WK2).
+  { intros H. apply CE1. apply (HTx H). }
   assert (exists s2 n2, (if has_hup_err re then (set_flag x s1, n1 - 1) else (s1, n1)) = (s2, n2) /\
             s2 = (if has_hup_err re then set_flag x s1 else s1)) as (s2 & n2 & EQ2 & ES2).
   { destruct (has_hup_err re); eexists; eexists; split; reflexivity. }
@@ -1685,13 +1768,13 @@ Proof. induction l1 as [|[x e] l1 IH]; intros; simpl; auto. Qed.
 
 (* the read callback and the ready list: the writes of its triggers wake their targets; the context
    itself is drained unless it is flagged *)
-Lemma EP_cb_read : forall x pend s, bk s = BEpoll -> all_writes (trigs s) -> EP (x :: pend) s ->
+Lemma EP_cb_read : forall x pend s, bk s = BEpoll -> all_tacts (trigs s) -> EP (x :: pend) s ->
   EP (x :: pend) (cb_read x s) /\ (events_c (cx (rd_mid x s) x) = 0 -> x <> 0 -> EP pend (cb_read x s)).
 Proof.
   intros x pend s B W E. rewrite cb_read_split.
   assert (OKF : forallb phase_act_ok (map tact (rd_fire x s)) = true).
   { apply forallb_forall. intros a Ha. apply in_map_iff in Ha. destruct Ha as (t & <- & Ht).
-    unfold rd_fire in Ht. apply filter_In in Ht. pose proof (W t (proj1 Ht)). destruct (tact t); try discriminate; auto. }
+    unfold rd_fire in Ht. apply filter_In in Ht. apply tact_ok_phase. apply (W t (proj1 Ht)). }
   assert (EVO : forall z, z <> x -> events (rd_mid x s) z = events s z).
   { intros z Hz. unfold events, rd_mid. simpl. apply Nat.eqb_neq in Hz. rewrite Hz. auto. }
   split.
@@ -1732,14 +1815,14 @@ Proof.
         split; auto; intros _ CF; apply C; auto.
       - split; auto; intros; discriminate. }
     destruct EP1 as [EP1 EP1k].
-    destruct (visit_flag (negb (has_in e) && has_hup_err e) E U s1 sg1 h1 x G1) as (G2 & FR2 & RD2 & T2 & O2 & NF2 & CQ2 & FT2 & FF2).
-    { intros H. apply Bool.andb_true_iff in H. destruct H as [_ H]. rewrite CE1. apply (HT H). }
+    destruct (visit_flag (negb (has_in e) && has_hup_err e) E U s1 sg1 h1 x G1) as (G2 & FR2 & RD2 & T2 & O2 & NF2 & CQ2 & FT2 & FF2 & WK2).
+    { intros H. apply Bool.andb_true_iff in H. destruct H as [_ H]. apply CE1. apply (HT H). }
     set (s2 := if negb (has_in e) && has_hup_err e then set_flag x s1 else s1) in *.
     assert (ES : (if has_in e then cb_read x s else if has_hup_err e then set_flag x s else s) = s2).
     { unfold s2, s1. destruct (has_in e), (has_hup_err e); auto. }
     pose proof (frame_trans _ _ _ FR1 FR2) as FR. destruct FR.
     assert (EVO2 : forall z, z <> x -> events s2 z = events s1 z).
-    { intros z Hz. unfold events. rewrite (fr_wk _ _ FR2), O2; auto. }
+    { intros z Hz. unfold events. rewrite WK2, O2; auto. }
     assert (HTO : forall z f, z <> x -> Htc f (cx s z) -> Htc f (cx s2 z)).
     { intros z f Hz H. rewrite O2 by auto. unfold s1. destruct (has_in e); [apply Htc_cb_read; auto|auto]. }
     pose proof (gt_inv _ _ _ _ _ _ G2) as I2.
@@ -2102,10 +2185,34 @@ Proof.
     + rewrite ?L, ?R; auto.
 Qed.
 
-(* ------------------------------------------------------------------ the class: triggers that write *)
-(* SW: every read-callback trigger writes to some context's peer (threshold >= 1, no two identical
-   trigger lines); every other action is issued before run() or from an idle phase; no scripted
-   exit / shutdown; the adds fit hints_max_fd.  [flat] is the special case without triggers. *)
+(* ------------------------------------------------------------------ the classes *)
+(* SWT: every read-callback trigger writes to, half-closes or closes some context's PEER, or wakes
+   the loop (threshold >= 1, no two identical trigger lines); a peer that some trigger terminates
+   gets all its callback-issued writes and terminators from one context (single source), and then
+   the trigger list is ordered by threshold (as the drivers order it); every other action is
+   issued before run() or from an idle phase; no scripted exit / shutdown; the adds fit
+   hints_max_fd.  SW (triggers that only write, in any order) and [flat] (no triggers) are special
+   cases. *)
+Definition noterm_b (l : list trigger) : bool :=
+  forallb (fun t => match tact t with AHclose _ | APclose _ => false | _ => true end) l.
+Fixpoint sorted_tb (l : list trigger) : bool :=
+  match l with
+  | a :: ((b :: _) as r) => Nat.leb (tbytes a) (tbytes b) && sorted_tb r
+  | _ => true
+  end.
+Definition tsb (l : list trigger) : bool :=
+  forallb (fun t => match tact t with
+                    | AHclose y | APclose y =>
+                        forallb (fun u => negb (targets_any y (tact u)) || Nat.eqb (tctx u) (tctx t)) l
+                    | _ => true
+                    end) l.
+
+Definition swt (sc : script) : bool :=
+  forallb (fun t => tact_ok (tact t) && Nat.leb 1 (tbytes t)) (s_trigs sc) && nodupb (s_trigs sc) &&
+  (noterm_b (s_trigs sc) || sorted_tb (s_trigs sc)) && tsb (s_trigs sc) &&
+  forallb phase_act_ok (concat (s_phases sc)) &&
+  Nat.leb (count_adds (concat (s_phases sc))) (if Nat.ltb (s_hints sc) 1 then 8 else s_hints sc).
+
 Definition sw (sc : script) : bool :=
   forallb (fun t => is_write (tact t) && Nat.leb 1 (tbytes t)) (s_trigs sc) && nodupb (s_trigs sc) &&
   forallb phase_act_ok (concat (s_phases sc)) &&
@@ -2115,17 +2222,67 @@ Definition spec_outcome_sw (sc : script) (x : nat) : nat * bool * bool :=
   let d := cx (spec_sw sc) x in
   if cregok d then (cq d, ceof d, negb (ceof d)) else (0, false, false).
 
-Lemma sw_parts : forall sc, sw sc = true ->
-  (forall t, In t (s_trigs sc) -> is_write (tact t) = true /\ 1 <= tbytes t) /\ NoDup (s_trigs sc) /\
+Lemma noterm_b_ok : forall l, noterm_b l = true -> noterm l.
+Proof.
+  intros l H t y Ht. pose proof (proj1 (forallb_forall _ _) H t Ht) as K.
+  simpl in K. unfold targets_term. destruct (tact t); auto; discriminate.
+Qed.
+
+Lemma sorted_tb_ok : forall l, sorted_tb l = true -> sortedU l.
+Proof.
+  intros l H a t (l1 & l2 & -> & Ht) _.
+  induction l1 as [|u l1 IH]; simpl in H.
+  - clear - H Ht. revert a H Ht. induction l2 as [|b l2 IH]; intros a H Ht; [destruct Ht|].
+    simpl in H. apply Bool.andb_true_iff in H. destruct H as [H1 H2]. apply Nat.leb_le in H1.
+    destruct Ht as [<-|Ht]; auto. pose proof (IH b H2 Ht). lia.
+  - apply IH. destruct (l1 ++ a :: l2) eqn:E; [destruct l1; discriminate|].
+    apply Bool.andb_true_iff in H. tauto.
+Qed.
+
+Lemma tsb_ok : forall l, tsb l = true -> TS l.
+Proof.
+  intros l H y.
+  destruct (existsb (fun t => targets_term y (tact t)) l) eqn:X.
+  - right. apply existsb_exists in X. destruct X as (t0 & Ht0 & T0).
+    exists (tctx t0). intros t Ht Tg.
+    pose proof (proj1 (forallb_forall _ _) H t0 Ht0) as K.
+    assert (forallb (fun u => negb (targets_any y (tact u)) || Nat.eqb (tctx u) (tctx t0)) l = true) as K'.
+    { simpl in K. unfold targets_term in T0. destruct (tact t0); try discriminate; apply Nat.eqb_eq in T0; subst; exact K. }
+    pose proof (proj1 (forallb_forall _ _) K' t Ht) as K2. simpl in K2. rewrite Tg in K2. simpl in K2. apply Nat.eqb_eq in K2. auto.
+  - left. intros t Ht. destruct (targets_term y (tact t)) eqn:Tt; auto.
+    assert (existsb (fun t => targets_term y (tact t)) l = true) by (apply existsb_exists; exists t; auto). congruence.
+Qed.
+
+Lemma swt_parts : forall sc, swt sc = true ->
+  (forall t, In t (s_trigs sc) -> tact_ok (tact t) = true /\ 1 <= tbytes t) /\ NoDup (s_trigs sc) /\
+  (noterm (s_trigs sc) \/ sortedU (s_trigs sc)) /\ TS (s_trigs sc) /\
   forallb phase_act_ok (concat (s_phases sc)) = true /\
   count_adds (concat (s_phases sc)) <= (if Nat.ltb (s_hints sc) 1 then 8 else s_hints sc).
 Proof.
-  intros sc H. unfold sw in H. apply Bool.andb_true_iff in H. destruct H as [H H4].
+  intros sc H. unfold swt in H. apply Bool.andb_true_iff in H. destruct H as [H H6].
+  apply Bool.andb_true_iff in H. destruct H as [H H5]. apply Bool.andb_true_iff in H. destruct H as [H H4].
   apply Bool.andb_true_iff in H. destruct H as [H H3]. apply Bool.andb_true_iff in H. destruct H as [H1 H2].
   split.
   - intros t Ht. pose proof (proj1 (forallb_forall _ _) H1 t Ht) as K.
     apply Bool.andb_true_iff in K. destruct K as [K1 K2]. apply Nat.leb_le in K2. auto.
-  - split; [apply nodupb_NoDup; auto|]. split; auto. apply Nat.leb_le. auto.
+  - split; [apply nodupb_NoDup; auto|]. split.
+    + apply Bool.orb_true_iff in H3. destruct H3 as [N|S]; [left; apply noterm_b_ok; auto|right; apply sorted_tb_ok; auto].
+    + split; [apply tsb_ok; auto|]. split; auto. apply Nat.leb_le. auto.
+Qed.
+
+Lemma sw_swt : forall sc, sw sc = true -> swt sc = true.
+Proof.
+  intros sc H. unfold sw in H. apply Bool.andb_true_iff in H. destruct H as [H H4].
+  apply Bool.andb_true_iff in H. destruct H as [H H3]. apply Bool.andb_true_iff in H. destruct H as [H1 H2].
+  assert (W : forall t, In t (s_trigs sc) -> is_write (tact t) = true /\ Nat.leb 1 (tbytes t) = true).
+  { intros t Ht. pose proof (proj1 (forallb_forall _ _) H1 t Ht) as K. apply Bool.andb_true_iff in K. auto. }
+  unfold swt. rewrite H2, H3, H4.
+  assert (forallb (fun t => tact_ok (tact t) && Nat.leb 1 (tbytes t)) (s_trigs sc) = true) as ->.
+  { apply forallb_forall. intros t Ht. destruct (W t Ht) as [A B]. rewrite B. destruct (tact t); try discriminate; auto. }
+  assert (noterm_b (s_trigs sc) = true) as ->.
+  { apply forallb_forall. intros t Ht. destruct (W t Ht) as [A B]. destruct (tact t); try discriminate; auto. }
+  assert (tsb (s_trigs sc) = true) as ->; auto.
+  apply forallb_forall. intros t Ht. destruct (W t Ht) as [A B]. destruct (tact t); try discriminate; auto.
 Qed.
 
 Lemma flat_sw : forall sc, flat sc = true -> sw sc = true.
@@ -2135,12 +2292,12 @@ Proof.
   unfold sw. destruct (s_trigs sc); [|discriminate]. simpl. rewrite H2, H3. auto.
 Qed.
 
-Lemma start_GX : forall b sc, sw sc = true ->
+Lemma start_GX : forall b sc, swt sc = true ->
   GX (spec_sw sc) (do_acts (hd [] (s_phases sc)) (init BSelect sc)) (s_trigs sc) (start b sc) /\
   toexit (start b sc) = false /\ idle (start b sc) = false /\ bk (start b sc) = b /\
   match b with BSelect => BSel (start b sc) | BPoll => True | BEpoll => BEp (start b sc) end.
 Proof.
-  intros b sc SW. destruct (sw_parts sc SW) as (W & NDU & PH & CAP).
+  intros b sc SW. destruct (swt_parts sc SW) as (W & NDU & SOK0 & TS0 & PH & CAP).
   set (p0 := hd [] (s_phases sc)). set (rest := tl (s_phases sc)).
   assert (CC : concat (s_phases sc) = p0 ++ concat rest).
   { unfold p0, rest. destruct (s_phases sc); simpl; auto. }
@@ -2170,9 +2327,12 @@ Proof.
     - constructor.
     - intros t [].
     - auto.
-    - intros pre t post Eq. destruct pre; discriminate.
+    - auto.
+    - destruct SOK0 as [N|S]; [left; auto|right; split; auto]. intros c. simpl. rewrite filter_memt_nil. auto.
+    - exists []. split; [auto|]. split; [intros b0 []|]. intros pre b0 post Eq. destruct pre; discriminate.
     - rewrite D1. simpl. intros t Ht. destruct (A3 (tctx t)) as (_ & _ & _ & CF). rewrite CF. simpl.
       apply (W t Ht).
+    - intros t [].
     - unfold E0. rewrite bk_do_acts. auto. }
   simpl in A5, A8, A9.
   destruct b.
@@ -2220,8 +2380,8 @@ Proof.
 Qed.
 
 (* ------------------------------------------------------------------ the theorems *)
-(* every back-end, on a script of class SW, ends with the outcome the specification computes *)
-Theorem sw_outcome : forall sc, sw sc = true -> forall b fuel s',
+(* every back-end, on a script of class SWT, ends with the outcome the specification computes *)
+Theorem swt_outcome : forall sc, swt sc = true -> forall b fuel s',
   runks b sc fuel = (s', true) -> forall x, outcome s' x = spec_outcome_sw sc x.
 Proof.
   intros sc SW b fuel s' R x. unfold runks in R.
@@ -2235,7 +2395,7 @@ Proof.
 Qed.
 
 (* agreement of select, poll and epoll (each loop may need a different number of kernel calls) *)
-Theorem agree_sw : forall sc, sw sc = true -> forall f1 f2 f3,
+Theorem agree_swt : forall sc, swt sc = true -> forall f1 f2 f3,
   snd (runks BSelect sc f1) = true -> snd (runks BPoll sc f2) = true -> snd (runks BEpoll sc f3) = true ->
   forall x, outcome (fst (runks BSelect sc f1)) x = outcome (fst (runks BPoll sc f2)) x /\
             outcome (fst (runks BSelect sc f1)) x = outcome (fst (runks BEpoll sc f3)) x.
@@ -2243,13 +2403,24 @@ Proof.
   intros sc SW f1 f2 f3 H1 H2 H3 x.
   destruct (runks BSelect sc f1) as [s1 b1] eqn:R1. destruct (runks BPoll sc f2) as [s2 b2] eqn:R2.
   destruct (runks BEpoll sc f3) as [s3 b3] eqn:R3. simpl in *. subst.
-  rewrite (sw_outcome sc SW _ _ _ R1 x), (sw_outcome sc SW _ _ _ R2 x), (sw_outcome sc SW _ _ _ R3 x). auto.
+  rewrite (swt_outcome sc SW _ _ _ R1 x), (swt_outcome sc SW _ _ _ R2 x), (swt_outcome sc SW _ _ _ R3 x). auto.
 Qed.
 
-Corollary agree_sw_same_fuel : forall sc fuel, sw sc = true ->
+Corollary agree_swt_same_fuel : forall sc fuel, swt sc = true ->
   snd (runks BSelect sc fuel) = true -> snd (runks BPoll sc fuel) = true -> snd (runks BEpoll sc fuel) = true ->
   agree sc fuel.
-Proof. intros sc fuel SW H1 H2 H3 x. apply agree_sw; auto. Qed.
+Proof. intros sc fuel SW H1 H2 H3 x. apply agree_swt; auto. Qed.
+
+(* the class SW (triggers only write, in any order) *)
+Theorem sw_outcome : forall sc, sw sc = true -> forall b fuel s',
+  runks b sc fuel = (s', true) -> forall x, outcome s' x = spec_outcome_sw sc x.
+Proof. intros sc SW. apply swt_outcome. apply sw_swt. auto. Qed.
+
+Theorem agree_sw : forall sc, sw sc = true -> forall f1 f2 f3,
+  snd (runks BSelect sc f1) = true -> snd (runks BPoll sc f2) = true -> snd (runks BEpoll sc f3) = true ->
+  forall x, outcome (fst (runks BSelect sc f1)) x = outcome (fst (runks BPoll sc f2)) x /\
+            outcome (fst (runks BSelect sc f1)) x = outcome (fst (runks BEpoll sc f3)) x.
+Proof. intros sc SW. apply agree_swt. apply sw_swt. auto. Qed.
 
 (* the flat class: without triggers the specification is "all phases in order" *)
 Lemma spec_go_nil : forall phs E, spec_go E [] phs = do_acts (concat phs) E.
@@ -2297,6 +2468,26 @@ Example agree_sw_nonvacuous :
   map (outcome (fst (runks BPoll sw_example 30))) [1; 2; 3; 4] = map (spec_outcome_sw sw_example) [1; 2; 3; 4] /\
   map (spec_outcome_sw sw_example) [1; 2; 3; 4] =
     [(5, true, false); (11, true, false); (21, false, true); (8, false, true)].
+Proof. vm_compute. repeat split; reflexivity. Qed.
+
+(* non-vacuity for SWT: triggers that half-close and close peers (single source: context 1 feeds and
+   then closes context 2's peer; context 3 half-closes its own peer after 10 bytes), a write after the
+   terminator that must be dropped, a wake-up from a trigger, a chain through the closed context *)
+Definition swt_example : script :=
+  mkScr 4 [(1, KPipe); (2, KUnix); (3, KTcp); (4, KPipe)]
+        [[AAdd 2; AAdd 1; AAdd 3; AWrite 1 5; AWrite 3 9];
+         [AAdd 4; AWrite 1 4; AWrite 3 2];
+         [AWrite 4 6; AWrite 1 1]]
+        [mkT 1 2 (AWrite 2 4); mkT 2 3 (AWrite 4 2); mkT 1 6 (APclose 2);
+         mkT 4 8 AWake; mkT 1 9 (AWrite 2 8); mkT 3 10 (AHclose 3)].
+
+Example agree_swt_nonvacuous :
+  swt swt_example = true /\ sw swt_example = false /\
+  snd (runks BSelect swt_example 30) = true /\ snd (runks BPoll swt_example 30) = true /\
+  snd (runks BEpoll swt_example 30) = true /\
+  map (outcome (fst (runks BSelect swt_example 30))) [1; 2; 3; 4] = map (spec_outcome_sw swt_example) [1; 2; 3; 4] /\
+  map (outcome (fst (runks BPoll swt_example 30))) [1; 2; 3; 4] = map (spec_outcome_sw swt_example) [1; 2; 3; 4] /\
+  map (outcome (fst (runks BEpoll swt_example 30))) [1; 2; 3; 4] = map (spec_outcome_sw swt_example) [1; 2; 3; 4].
 Proof. vm_compute. repeat split; reflexivity. Qed.
 
 Definition flat_example : script :=
